@@ -482,22 +482,21 @@ def no_use_before_assignment(ctx, model, prop, rule, prefixes, exact_modules=Fal
             fl.locals = stored - declared - params
             import builtins as _bi
             mod_names = set(m.imports) | set(m.functions) | set(m.classes) | set(m.assigns) | set(dir(_bi)) | {"__file__", "__name__", "__doc__", "__class__"}
-            for st_ in _ast.walk(m.tree):     # any name bound anywhere at module / class level or in an enclosing function (closures)
-                if isinstance(st_, _ast.Name) and isinstance(st_.ctx, _ast.Store):
-                    mod_names.add(st_.id)
-                elif isinstance(st_, (_ast.FunctionDef, _ast.AsyncFunctionDef, _ast.ClassDef)):
-                    mod_names.add(st_.name)
-                    if not isinstance(st_, _ast.ClassDef):
-                        a2 = st_.args
-                        mod_names.update(a_.arg for a_ in a2.posonlyargs + a2.args + a2.kwonlyargs)
-                        if a2.vararg:
-                            mod_names.add(a2.vararg.arg)
-                        if a2.kwarg:
-                            mod_names.add(a2.kwarg.arg)
-                elif isinstance(st_, (_ast.Import, _ast.ImportFrom)):
-                    mod_names.update((a_.asname or a_.name).split(".")[0] for a_ in st_.names)
-                elif isinstance(st_, _ast.ExceptHandler) and st_.name:
-                    mod_names.add(st_.name)
+            def top_level(stmts):       # names bound by module-level statements (also inside module-level if / try / for / with blocks)
+                for st_ in stmts:
+                    if isinstance(st_, (_ast.FunctionDef, _ast.AsyncFunctionDef, _ast.ClassDef)):
+                        mod_names.add(st_.name)
+                        continue
+                    if isinstance(st_, (_ast.Import, _ast.ImportFrom)):
+                        mod_names.update((a_.asname or a_.name).split(".")[0] for a_ in st_.names)
+                    for x_ in _ast.walk(st_):
+                        if isinstance(x_, _ast.Name) and isinstance(x_.ctx, _ast.Store):
+                            mod_names.add(x_.id)
+                        elif isinstance(x_, _ast.ExceptHandler) and x_.name:
+                            mod_names.add(x_.name)
+                        elif isinstance(x_, (_ast.Import, _ast.ImportFrom)):
+                            mod_names.update((a_.asname or a_.name).split(".")[0] for a_ in x_.names)
+            top_level(m.tree.body)
             star = any(isinstance(st_, _ast.ImportFrom) and any(a_.name == "*" for a_ in st_.names) for st_ in _ast.walk(m.tree))
             fl.known_globals = mod_names if not star else None
             if star:
